@@ -202,8 +202,16 @@ def rule_sweep(ctx):
     ctx.need(len(bs) == 1, f"{fq}: one base_step call expected")
     kw = kwargs(bs[0][0])
     hh, jj, na = kw.get('h'), kw.get('j'), kw.get('n_alleles')
-    good = hh is not None and jj is not None and hh[0] == 'proj' and jj[0] == 'proj' and hh[1] == 0 and jj[1] == 1 and hh[2] == jj[2] \
-        and hh[2][0] == 'idx' and hh[2][2][0] == 'loopvar' and na == ('idx', ('param', 'n_alleles'), jj)
+    def column(t, k):
+        # element k of the visited row: row[k] of `row = substeps[i]` / unpacking, or substeps[i, k]
+        if t is None:
+            return None
+        if t[0] == 'proj' and t[1] == k and t[2][0] == 'idx' and t[2][2][0] == 'loopvar':
+            return t[2]
+        if t[0] == 'idx' and t[2][0] == 'tuple' and len(t[2][1]) == 2 and t[2][1][0][0] == 'loopvar' and t[2][1][1] == ('const', k):
+            return ('idx', t[1], t[2][1][0])
+        return None
+    good = column(hh, 0) is not None and column(hh, 0) == column(jj, 1) and na == ('idx', ('param', 'n_alleles'), jj)
     ctx.check(good, 'R15.1/visit-args', f.construct('base_step'), "base_step(h, j) of the visited row with n_alleles[j] of the same j",
               f"base_step receives h={show(hh)[:50]} j={show(jj)[:50]} n_alleles={show(na)[:60]}", f.where(bs[0][1]))
 
